@@ -84,6 +84,12 @@ def _masked(arg: ast.AST | None, flags: tuple[str, ...], incoming: str, fn: ast.
     return False, f'passes `{norm(arg)}`'
 
 
+def _is_super_call(k: ast.Call, meth: str) -> bool:
+    f = k.func
+    return isinstance(f, ast.Attribute) and f.attr == meth and isinstance(f.value, ast.Call) \
+        and isinstance(f.value.func, ast.Name) and f.value.func.id == 'super'
+
+
 def position_masked(repo, h: Hoister, pos: str) -> tuple[bool, str, ast.AST | None]:
     meth, subs, _ = POSITIONS[pos]
     try:
@@ -115,7 +121,7 @@ def position_masked(repo, h: Hoister, pos: str) -> tuple[bool, str, ast.AST | No
             cn = call_name(k)
             if cn == 'self._visit_expr' and k.args and norm(k.args[0]) == sub:
                 found = _masked(k.args[1] if len(k.args) > 1 else None, h.refusal_flags, incoming, f, h.mask_methods)
-            elif cn == f'super().{meth}' and len(k.args) >= 2:
+            elif _is_super_call(k, meth) and len(k.args) >= 2:
                 found = _masked(k.args[1], h.refusal_flags, incoming, f, h.mask_methods)
         if found is None:
             # comprehension spelling: [self._visit_expr(x, None) for x in ...] is not the element; look for any visit of the sub text
